@@ -78,6 +78,32 @@ CHECKS = {
          "ListBuckets must show exactly the accepted names and re-creation must answer BucketAlreadyExists.",
          "exhaustive small-scope enumeration by TLC (spec/MC_Names.tla, S3BucketName.tla) replayed",
          "non-canonical dotted-decimal names (octet > 255, leading zeros) are don't-care"),
+ "C01": ("model_checking",
+         "Every transition of a read/write model (1 bucket, nested keys, 2 bodies + the empty body, upload by PUT, PUT with "
+         "x-amz-meta/Content-Type/Content-Encoding/Content-Disposition, browser-form POST, copy; reads by GET, HEAD and listing) "
+         "is replayed on every backend incl. single-bucket ones, with integrity checking on and off, with plain and rich keys "
+         "(UTF-8, blanks, characters needing URL escaping); each abstract body is concretized per tour from size classes "
+         "1 B..64 KiB+1 (thorough ..3 MiB) with seeded random bytes; GET body, Content-Length, ETag=quoted MD5, HEAD entity "
+         "headers with empty body, returned metadata and listing Size/ETag are compared after every step and in audits.",
+         "TLC transition tours replayed; ReadYourWrite action property; byte dimension sampled per size class",
+         "bodies sampled, not enumerated (TLA+ treats bodies as opaque atoms); Go Backend API path not exercised separately"),
+ "C08": ("model_checking",
+         "MC_Upload enumerates the class product target {PUT, aws-chunked PUT, form POST, part} x Content-MD5 {none, good, wrong, "
+         "malformed, wrong length, empty} x declared length {exact, shorter, longer, missing, negative, non-numeric} x key "
+         "{ok, 1024, 1025 bytes} x metadata {ok, over the limit} x prior {absent, existing object / existing part} x "
+         "integrity {on, off} and a body reader failing after k bytes; S3!Upload predicts accept or the admissible refusals and "
+         "RejectedUnchanged is an invariant; after every attempt the key, the listing and the pending upload are audited on "
+         "every backend.",
+         "exhaustive class-product enumeration by TLC (spec/MC_Upload.tla) replayed with audits; fault points enumerated",
+         "metadata boundary tested well under / well over the limit; over-long bodies only in process"),
+ "C12": ("model_checking",
+         "TLC model-checks a state-machine model of the decoder under all transport fragmentations and consumer buffer sizes "
+         "(DecodeExact) and enumerates streams of <=2-3 chunks of 1..3 units x final chunk present/absent x cyclic fragment "
+         "patterns x buffer patterns x EOF delivered with/without data x malformations (non-hex size, truncated header, truncated "
+         "data, declared decoded length short/long); each case drives the real decoder directly (verif-tagged export) and, "
+         "scaled so that chunks straddle 32 KiB, an end-to-end PUT on every backend followed by a GET.",
+         "TLC model check of the decoder state machine + TLC-enumerated cases executed on the real decoder and end to end",
+         "fragment/buffer sequences are cyclic patterns of length <= 2 in the executed cases"),
 }
 
 NOT_YET = {}
